@@ -105,6 +105,45 @@ pub fn gen_c03(thorough: bool, seed: u64) -> Vec<Episode> {
             }
         }
     }
+    if !thorough {
+        // the largest sizes of the dynamic Lut: EVERY index pair and every index, on sparse tables
+        // (a few hundred minterms keep the events small; a wrong index mapping shows on any of them)
+        for n in [13usize, 14] {
+            let mut pairs: Vec<(usize, usize)> = Vec::new();
+            for i in 0..n {
+                for j in 0..n {
+                    if i != j {
+                        pairs.push((i, j));
+                    }
+                }
+            }
+            for chunk in pairs.chunks(6) {
+                let t = sparse_on(n, &mut r, 300);
+                let mut ops = vec![load(0, n, &t)];
+                for (k, &(i, j)) in chunk.iter().enumerate() {
+                    if k % 2 == 0 {
+                        ops.push(json!({"op": "swap", "f": "copy", "a": 0, "d": 1, "i": i, "j": j}));
+                    } else {
+                        ops.push(json!({"op": "copy", "a": 0, "d": 1}));
+                        ops.push(json!({"op": "swap", "f": "inplace", "a": 1, "d": 1, "i": i, "j": j}));
+                    }
+                }
+                eps.push(Episode { n, tys: "lut", ops });
+            }
+            for i in 0..n {
+                let t = sparse_on(n, &mut r, 300);
+                let u = sparse_on(n, &mut r, 300);
+                let mut ops = vec![load(0, n, &t), load(1, n, &u)];
+                ops.push(json!({"op": "flip", "f": "copy", "a": 0, "d": 2, "i": i}));
+                ops.push(json!({"op": "cofactors", "a": 0, "d0": 3, "d1": 4, "i": i}));
+                ops.push(json!({"op": "fromcof", "a": 0, "b": 1, "d": 5, "i": i}));
+                if i + 1 < n {
+                    ops.push(json!({"op": "swapadj", "f": "copy", "a": 0, "d": 2, "i": i}));
+                }
+                eps.push(Episode { n, tys: "lut", ops });
+            }
+        }
+    }
     if thorough {
         // every table of up to 3 variables with every index pair; n = 4: every table, rotating pair
         for n in 1..=4usize {
@@ -186,6 +225,29 @@ pub fn gen_c01(thorough: bool, seed: u64) -> Vec<Episode> {
                     logic_op(g, f, 0, 1, 2 + (k % 3), &mut ops);
                 }
                 eps.push(Episode { n, tys: tys_for(n), ops });
+            }
+            // operands that are zero on whole 64-bit blocks at the low end, the high end or both
+            if n >= 7 && p == 0 {
+                let d = dom(n);
+                let nbk = d / 64;
+                let rnd = random_on(n, &mut r);
+                let keep = |lo: usize, hi: usize| -> Vec<usize> { rnd.iter().cloned().filter(|&m| m / 64 >= lo && m / 64 < hi).collect() };
+                let shapes: Vec<Vec<usize>> = vec![
+                    keep(nbk - 1, nbk),                 // only the last block
+                    keep(0, 1),                         // only the first block
+                    keep(nbk / 2, nbk),                 // upper half (a high projection looks like this)
+                    keep(nbk / 2, nbk / 2 + 1),         // one block in the middle
+                    keep(1, nbk),                       // all but the first block
+                    on_from_fn(n, |m| (m >> (n - 1)) & 1 == 1),
+                ];
+                for (k, sh) in shapes.iter().enumerate() {
+                    let mut ops = vec![load(0, n, &a), load(1, n, sh)];
+                    for g in ["and", "or", "xor"] {
+                        logic_op(g, BIN_FORMS[(k + n) % 8], 0, 1, 2, &mut ops);
+                        logic_op(g, BIN_FORMS[(k + n + 3) % 8], 1, 0, 3, &mut ops);
+                    }
+                    eps.push(Episode { n, tys: tys_for(n), ops });
+                }
             }
             // an operand combined with itself: the very same object for the borrowing forms
             // (named, ref_ref), clones for the others
@@ -1210,6 +1272,21 @@ pub fn gen_c02(thorough: bool, seed: u64) -> Vec<Episode> {
             }
             eps.push(Episode { n, tys: tys_for(n), ops });
         }
+        // Clone::clone_from into an existing table, of the same size (both types) and of other sizes (Lut)
+        {
+            let src = random_on(n, &mut r);
+            let dst = random_on(n, &mut r);
+            eps.push(Episode { n, tys: tys_for(n), ops: vec![load(0, n, &src), load(1, n, &dst), json!({"op": "clone_from", "a": 0, "d": 1}),
+                                                             rel(0, 1, "eq"), rel(0, 1, "hasheq"), json!({"op": "reload", "a": 1, "d": 7}), rel(1, 7, "eq"), rel(1, 7, "cmp")] });
+            for m in [0usize, 3, 5, 6, 7, 9, 12] {
+                if m == n {
+                    continue;
+                }
+                let other: Vec<usize> = if m > n { (0..dom(m)).collect() } else { random_on(m, &mut r) };
+                eps.push(Episode { n, tys: "lut", ops: vec![load(0, m, &other), load(1, n, &dst), json!({"op": "clone_from", "a": 0, "d": 1}),
+                                                            rel(0, 1, "eq"), rel(0, 1, "hasheq"), json!({"op": "reload", "a": 1, "d": 7}), rel(1, 7, "eq"), rel(1, 7, "cmp")] });
+            }
+        }
         // conversions Lut -> LutM -> Lut for every static size M (an Err is fine; an Ok must be well-formed)
         for t in [(0..dom(n)).collect::<Vec<usize>>(), random_on(n, &mut r), vec![dom(n) - 1]] {
             for m in 0..=12usize {
@@ -1449,6 +1526,29 @@ pub fn gen_c10a(thorough: bool, seed: u64) -> Vec<Episode> {
         }
         ops.push(json!({"op": "vnext", "a": 0}));
         eps.push(Episode { n, tys: "both", ops });
+    }
+    eps
+}
+
+/// C10 phase A': the structured families of the decomposition and BDD drivers, replayed in lock
+/// step (random tables alone never separate type-specific query code on structured inputs)
+pub fn gen_c10s(thorough: bool, seed: u64) -> Vec<Episode> {
+    let mut eps = Vec::new();
+    let step = if thorough { 3 } else { 9 };
+    for (k, e) in gen_c06(false, seed).into_iter().enumerate() {
+        if e.tys == "both" && e.n >= 1 && k % step == 0 && e.ops.iter().all(|o| o["op"] != "consts") {
+            eps.push(e);
+        }
+    }
+    for (k, e) in gen_c07(false, seed).into_iter().enumerate() {
+        if e.tys == "both" && k % 2 == 0 {
+            eps.push(e);
+        }
+    }
+    for (k, e) in gen_c03(false, seed).into_iter().enumerate() {
+        if e.tys == "both" && k % 7 == 0 && e.ops.iter().all(|o| o["op"] != "consts") {
+            eps.push(e);
+        }
     }
     eps
 }
